@@ -304,8 +304,10 @@ impl Recorder {
             self.apply(&mut it, op, &mut clones);
         }
         self.drain(&mut it, true);
+        // clones are independent iterators: drained under the mask they were cloned with and then,
+        // like the original, under the full mask (what the clone still owes must all come out)
         for mut c in clones {
-            self.drain(&mut c, false);
+            self.drain(&mut c, true);
         }
     }
 }
